@@ -21,12 +21,30 @@ MonitorNames == {
     "C18_ReaderLimit", "C18_ReaderLimitAPI", "C18_NoDoubleCount", "C18_TeardownOnUnavailable", "C18_NoReadersWithoutStream",
     "C19_AtMostOneResponse", "C19_NoSpuriousResponse", "C19_AnsweredWhenWaitEnds", "C19_AnsweredWhenReady",
     "C19_StreamOnlyWhileAvailable", "C19_DemandAlternates", "C19_StartedOnDemand", "C19_NoDeadWait", "C19_NoHang",
+    "C19_StopScheduledWhenIdle",
     "C20_Alternate", "C20_StartCmdClosed", "C20_ClosedAtEnd" }
 
 StaticStartEv == E("static", "", "start", 0)
 StaticStopEv  == E("static", "", "stop", 0)
 DemandStartEv == E("cmd", "demand", "start", 0)
 DemandStopEv  == E("cmd", "demand", "stop", 0)
+
+\* readers the path has closed (kicked) up to step i whose own, late RemoveReader has not arrived yet
+KickedOutstanding(r, i) ==
+    {c \in Readers : \E k \in 1..i :
+        /\ \E j \in 1..Len(r.steps[k].ev) : r.steps[k].ev[j].t = "close" /\ r.steps[k].ev[j].c = c
+        /\ \A m \in (k + 1)..i : ~(r.steps[m].in.c = c /\ r.steps[m].in.a \in {"RemoveReader", "AddReader"})}
+\* the on-demand source / command is running after step i (more starts than stops so far)
+RunningAfter(r, i, startEv, stopEv) ==
+    LET es == SelectSeq(AllEv(SubSeq(H(r), 1, i)),
+                        LAMBDA e : (e.t = startEv.t /\ e.c = startEv.c /\ e.v = startEv.v)
+                                \/ (e.t = stopEv.t /\ e.c = stopEv.c /\ e.v = stopEv.v))
+    IN Len(es) % 2 = 1
+IdleStopScheduled(r, startEv, stopEv) ==
+    \A i \in 1..Len(r.steps) :
+        LET o == r.steps[i].obs IN
+        (o.alive /\ RunningAfter(r, i, startEv, stopEv) /\ o.readers = <<>> /\ o.held = 0 /\ KickedOutstanding(r, i) = {})
+            => (o.closeArmed \/ o.readyArmed)
 
 Mon(name, r) ==
     LET h == H(r) IN
@@ -59,18 +77,26 @@ Mon(name, r) ==
       \* a held request can still be answered: the start timeout is running
       [] name = "C19_NoDeadWait" ->
             \A i \in 1..Len(h) : (r.steps[i].obs.alive /\ r.steps[i].obs.held > 0) => r.steps[i].obs.readyArmed
+      \* "stop after the close delay once no reader remains": while the on-demand source / command is running and
+      \* nobody needs it (no reader attached, no request held, no kicked reader whose own RemoveReader is still
+      \* to come), a timer that will stop it is armed
+      [] name = "C19_StopScheduledWhenIdle" ->
+            /\ OnDemandStatic => IdleStopScheduled(r, StaticStartEv, StaticStopEv)
+            /\ OnDemandPub => IdleStopScheduled(r, DemandStartEv, DemandStopEv)
       [] name = "C19_NoHang" -> ~r.closeHang /\ \A i \in 1..Len(h) : ~r.steps[i].hang
       [] name = "C20_Alternate"      -> \A f \in Families : C20_Alternate(h, f[1], f[2])
       [] name = "C20_StartCmdClosed" -> \A f \in Families : C20_StartCmdClosed(h, f[1], f[2])
       [] name = "C20_ClosedAtEnd"    -> \A f \in Families : C20_ClosedAtEnd(h, f[1], f[2])
 
 \* diagnosis attached to a failing monitor (used to tell known findings from new ones)
+\* informational: at the first dead wait the close timer is armed or a kicked reader's RemoveReader is still to come
+Transient(r, i) == r.steps[i].obs.closeArmed \/ KickedOutstanding(r, i) # {}
 Detail(name, r) ==
     IF name = "C19_NoDeadWait"
     THEN LET bad == {i \in 1..Len(r.steps) : r.steps[i].obs.alive /\ r.steps[i].obs.held > 0 /\ ~r.steps[i].obs.readyArmed}
              i == CHOOSE x \in bad : \A y \in bad : x <= y
-         IN [step |-> i, od |-> r.steps[i].obs.od, streamAvailable |-> r.steps[i].obs.ready]
-    ELSE [step |-> 0, od |-> "", streamAvailable |-> FALSE]
+         IN [step |-> i, od |-> r.steps[i].obs.od, streamAvailable |-> r.steps[i].obs.ready, transient |-> Transient(r, i)]
+    ELSE [step |-> 0, od |-> "", streamAvailable |-> FALSE, transient |-> FALSE]
 
 RunVerdict(r, ln) ==
     \A name \in MonitorNames :
